@@ -141,25 +141,25 @@ func Backoff.Next
 func HTTPClient.Membership
   props C12
   requires c.hasherF != nil && pure_fn(c.hasherF) && nonnil_fn(c.hasherF)
-  modifies everything
+  modifies everything, reqCount, lastReqWasPrimary
   ensures result_1 == nil ==> result_0 != nil
 
 func HTTPClient.MembershipDigest
   props C12
   requires c.hasherF != nil && pure_fn(c.hasherF) && nonnil_fn(c.hasherF)
-  modifies everything
+  modifies everything, reqCount, lastReqWasPrimary
   ensures result_1 == nil ==> result_0 != nil && result_0.HyperProof != nil
   ensures result_1 == nil ==> len(result_0.HyperProof.Value) == int(hashlen_fn(c.hasherF))
 
 func HTTPClient.Incremental
   props C12
   requires c.hasherF != nil && pure_fn(c.hasherF) && nonnil_fn(c.hasherF)
-  modifies everything
+  modifies everything, reqCount, lastReqWasPrimary
   ensures result_1 == nil ==> result_0 != nil && !isnil(result_0.Hasher)
 
 func HTTPClient.GetSnapshot
   props C12
-  modifies everything
+  modifies everything, reqCount, lastReqWasPrimary
   ensures result_1 == nil ==> result_0 != nil
 
 func HTTPClient.MembershipVerify
@@ -175,7 +175,7 @@ func HTTPClient.MembershipVerify
 func HTTPClient.MembershipAutoVerify
   props C12
   requires c.hasherF != nil && pure_fn(c.hasherF) && nonnil_fn(c.hasherF) && !isnil(c.log)
-  modifies everything
+  modifies everything, reqCount, lastReqWasPrimary
 
 func HTTPClient.IncrementalVerify
   props C03 C12
@@ -188,5 +188,5 @@ func HTTPClient.IncrementalVerify
 func HTTPClient.IncrementalAutoVerify
   props C12
   requires c.hasherF != nil && pure_fn(c.hasherF) && nonnil_fn(c.hasherF) && !isnil(c.log)
-  modifies everything, verifyCalls, lastVerify, lastVerifyHistory, lastVerifyHyper
+  modifies everything, verifyCalls, lastVerify, lastVerifyHistory, lastVerifyHyper, reqCount, lastReqWasPrimary
 @*/
